@@ -156,6 +156,14 @@ Fixpoint seal_consume (sealed : list (Z * list Z)) (st : nonces) : nonces :=
   | (f, vals) :: r => seal_consume r (remove_nonce_for f vals st)
   end.
 
+(* HEAD (repair cb7f900): `for _, feederID := range sealed { RemoveNonceWithFeederIDForAll(ctx, feederID) }` — the
+   validators are no longer taken from the validator MAP but from an iteration over the nonce STORE (key order, no
+   schedule).  [keys] = the validators that have a row when the phase starts (distinct, in store order); a row that an
+   earlier feeder emptied and deleted is simply absent later, and removing from an absent row is a no-op, so using
+   the initial key list for every feeder describes the same writes.  The remaining schedule is the order of `sealed`. *)
+Definition seal_consume_all (keys : list Z) (sealed : list Z) (st : nonces) : nonces :=
+  seal_consume (map (fun f => (f, keys)) sealed) st.
+
 (* `for _, tokenID := range failed { GrowRoundID(tokenID) }` : price store token -> (nextRoundID, latest price) *)
 Definition g_grow (_ : Z) (old : option (Z * Z)) : option (Z * Z) :=
   match old with
